@@ -832,9 +832,114 @@ fn binary_shape(shape: u64, name: &str, sc: &mut Scenario) -> (String, Vec<Strin
     (text, extra)
 }
 
+/// "Exactly the diagnostics that are not suppressed are written, each once": which ones are suppressed is decided
+/// per FILE for a file-level attribute. Three files carry the same kind of lint; every subset of them allows it.
+/// The expectation needs no model of the compiler: the lint located in file i is written iff file i does not allow it.
+pub struct PerFileSuppression;
+const PFS_LINTS: [(&str, &str); 3] = [
+    ("Deprecated", "[deprecated] struct Old{I} {}\nstruct Uses{I} { o: Old{I} }\n"),
+    ("BrokenDocLink", "/// See {@link Nope{I}}.\nstruct Doc{I} {}\n"),
+    ("MalformedDocComment", "/// @bogus{I} x\nstruct Bad{I} {}\n"),
+];
+const PFS_ORDERS: [[usize; 3]; 6] = [[0, 1, 2], [0, 2, 1], [1, 0, 2], [1, 2, 0], [2, 0, 1], [2, 1, 0]];
+impl PerFileSuppression {
+    fn build(idx: u64) -> (Vec<String>, Vec<bool>, &'static str, bool, [usize; 3]) {
+        let (lint, body) = PFS_LINTS[(idx % 3) as usize];
+        let mask = (idx / 3) % 8;
+        let json = (idx / 24) % 2 == 1;
+        let order = PFS_ORDERS[((idx / 48) % 6) as usize];
+        let all = (idx / 288) % 2 == 1;
+        let mut texts = vec![];
+        let mut allowed = vec![];
+        for k in order {
+            let a = mask >> k & 1 == 1;
+            allowed.push(a);
+            let attr = if a { format!("[[allow({})]]\n", if all { "All" } else { lint }) } else { String::new() };
+            texts.push(format!("{attr}module F{k}\n{}", body.replace("{I}", &k.to_string())));
+        }
+        (texts, allowed, lint, json, order)
+    }
+}
+impl Family for PerFileSuppression {
+    fn name(&self) -> String {
+        "per-file-suppression/three files with the same kind of lint (Deprecated, BrokenDocLink, MalformedDocComment) x every subset of them carrying [[allow(that lint)]] or [[allow(All)]] x all 6 file orders x 2 formats: the lint of file i is written exactly once iff file i does not allow it".into()
+    }
+    fn len(&self) -> u64 {
+        3 * 8 * 2 * 6 * 2
+    }
+    fn describe(&self, idx: u64) -> Value {
+        let (texts, allowed, lint, json, _) = Self::build(idx);
+        json!({"lint": lint, "files": texts, "file_allows_it": allowed, "format": if json { "json" } else { "human" }})
+    }
+    fn run(&self, idx: u64) -> CaseOut {
+        let (texts, allowed, lint, json, _) = Self::build(idx);
+        let mut out = CaseOut::new(hash_str(&format!("c14pfs{idx}")));
+        out.validated = 1;
+        out.nontrivial = allowed.iter().any(|a| *a) && !allowed.iter().all(|a| *a);
+        let argv: Vec<String> = if json { vec!["slicec".into(), "--diagnostic-format".into(), "json".into(), "--disable-color".into()] } else { vec!["slicec".into(), "--disable-color".into()] };
+        let opts = SliceOptions::try_parse_from(argv).expect("options");
+        let input = || format!("format {}\n--- input ---\n{}", if json { "json" } else { "human" }, texts.join("\n--- next file ---\n"));
+        let refs: Vec<&str> = texts.iter().map(|s| s.as_str()).collect();
+        let r = guarded(|| {
+            let state = slicec::compile_from_strings(&refs, Some(&opts));
+            let slicec::compilation_state::CompilationState { ast, diagnostics, files } = state;
+            let raw = diagnostics.into_updated(&ast, &files, &opts);
+            let mut buf: Vec<u8> = vec![];
+            let res = {
+                let mut em = DiagnosticEmitter::new(&mut buf, &opts, &files);
+                em.emit_diagnostics(raw).map_err(|e| e.to_string())
+            };
+            (buf, res)
+        });
+        let stream = match r {
+            Err((loc, msg)) => {
+                out.violate(format!("c14/per-file-suppression/panic@{loc}"), format!("{msg}\n{}", input()));
+                return out;
+            }
+            Ok((_, Err(e))) => {
+                out.violate("c14/per-file-suppression/emitter-error", format!("{e}\n{}", input()));
+                return out;
+            }
+            Ok((buf, Ok(()))) => String::from_utf8_lossy(&buf).to_string(),
+        };
+        // reports of that lint per file, read from the STREAM
+        let mut per_file = vec![0usize; 3];
+        if json {
+            for line in stream.lines() {
+                if let Ok(v) = serde_json::from_str::<Value>(line) {
+                    if v["error_code"].as_str() == Some(lint) {
+                        if let Some(i) = v["span"]["file"].as_str().and_then(|f| f.strip_prefix("string-")).and_then(|i| i.parse::<usize>().ok()) {
+                            per_file[i.min(2)] += 1;
+                        }
+                    }
+                }
+            }
+        } else {
+            let lines: Vec<&str> = stream.lines().collect();
+            for (k, l) in lines.iter().enumerate() {
+                if l.starts_with(&format!("warning [{lint}]")) {
+                    if let Some(i) = lines.get(k + 1).and_then(|n| n.strip_prefix(" --> string-")).and_then(|r| r.split(':').next()).and_then(|i| i.parse::<usize>().ok()) {
+                        per_file[i.min(2)] += 1;
+                    }
+                }
+            }
+        }
+        for i in 0..3 {
+            let want = if allowed[i] { 0 } else { 1 };
+            if per_file[i] != want {
+                let sig = if allowed[i] { "allowed-lint-left-a-trace" } else if per_file[i] == 0 { "lint-of-a-file-that-does-not-allow-it-is-missing" } else { "lint-written-more-than-once" };
+                out.violate(format!("c14/per-file-suppression/{sig}"), format!("file {i} {} {lint}: {} report(s) of it located in that file were written, {want} expected\n--- stream ---\n{}\n{}", if allowed[i] { "allows" } else { "does not allow" }, per_file[i], truncate(&stream, 1200), input()));
+                break;
+            }
+        }
+        out.class = format!("{lint}:{}allowed:{}", allowed.iter().filter(|a| **a).count(), if json { "json" } else { "human" });
+        out
+    }
+}
+
 pub fn families(tier: &str) -> Vec<Box<dyn Family>> {
     let quick = tier == "quick";
-    let mut v: Vec<Box<dyn Family>> = vec![Box::new(ExitPoints), Box::new(RawSources), Box::new(Emission { arity: 1, all_configs: true, specials_only: false }), Box::new(Binary), Box::new(Emission { arity: 2, all_configs: !quick, specials_only: false })];
+    let mut v: Vec<Box<dyn Family>> = vec![Box::new(ExitPoints), Box::new(RawSources), Box::new(PerFileSuppression), Box::new(Emission { arity: 1, all_configs: true, specials_only: false }), Box::new(Binary), Box::new(Emission { arity: 2, all_configs: !quick, specials_only: false })];
     if !quick {
         v.push(Box::new(Emission { arity: 3, all_configs: false, specials_only: true }));
     }
